@@ -831,6 +831,9 @@ func replay(c *hl.Ctx, raw json.RawMessage) {
 		}
 	case "rates":
 		checkRates(c)
+	case "retention":
+		c.NShards = 1
+		retention(c)
 	default:
 		panic("unknown part " + cs.Part)
 	}
